@@ -2,7 +2,7 @@
 import json, os, re
 from . import core, e2e
 
-SECTIONS = ["Pipeline", "Item", "Reactor"]
+SECTIONS = ["Pipeline", "Item", "Reactor", "Stages"]
 LEVEL = "proof"
 RULE = ("(i) batches of 1..12 seeds with random consistent trees (depth <= 3, redirect chains, failed / seen / completed leaves) pushed "
         "concurrently through the real reactor and the real finisher workers (1..8 goroutines), going round as many passes as their "
@@ -247,13 +247,48 @@ def end_to_end(ctx, n):
         ctx.sample({"e2e": {"seeds": scns[0][0]["seeds"], "cfg": scns[0][0]["cfg"]}})
 
 
+def lives(ctx, n):
+    """whole lives of one seed through the real preprocess / ProcessBody / postprocess / CompleteAndCheck (scripted archive), replayed on the
+    stage models of which `Model/Life.lean` is the composition; judged by the shape the theorems c01_seed_is_let_go,
+    c01_pass_acknowledges_only_done_trees state: bounded passes, one level per pass, let go only with nothing pending"""
+    from . import stage, c06
+    r = ctx.rng
+    h = core.Interactive("stage")
+    run_ = stage.Run(ctx, h)
+    try:
+        for k in range(n):
+            cfg = stage.gen_cfg(r)
+            cfg["domainsCrawl"] = []
+            site = c06.gen_site(r)
+            seed = r.choice(c06.SEEDS)
+            act, tree, trace = stage.run_seed(run_, cfg, site, seed, seed_id="life%d" % k, max_passes=c06.budget(cfg),
+                                              regex_match=stage.regex_matcher(cfg))
+            rp = {"domain": "stage", "cfg": cfg, "seed": seed, "site": site.pages}
+            ctx.count("lives")
+            ctx.count("life-end:" + str(act))
+            ctx.case(json.dumps([cfg, seed, sorted(site.pages["http://site.example/"]["assets"])]), trace["passes"] >= 3)
+            if act == "cut":
+                ctx.violation("the seed was still circulating after %d passes (--max-redirect %d)" % (trace["passes"], cfg["maxRedirect"]), rp)
+            elif act not in ("finish", "panic", "unparsable"):
+                ctx.violation("a seed's life ended with %r" % act, rp)
+            elif act == "panic":
+                ctx.violation("a stage panicked on the seed's tree: %s" % trace.get("crash", ""), rp)
+            else:
+                c06.check_life(ctx, cfg, act, tree, trace, rp)
+    finally:
+        h.send({"op": "close"}); h.close()
+    stage.compare(ctx, run_, "C01 lives")
+
+
 def run(ctx):
     stage_level(ctx, 400 if ctx.thorough() else 25)
+    lives(ctx, 600 if ctx.thorough() else 30)
     end_to_end(ctx, 300 if ctx.thorough() else 10)
     ctx.assumptions += ["the three stages between reactor and finisher are played by the harness at stage level (any tree transformation is allowed "
                         "by the theorems); they run for real in the end-to-end crawls",
                         "Go channels hand each seed to exactly one receiver (the events of the model are atomic hand-overs)",
-                        "liveness (every seed eventually leaves) is observed on the crawls, not proved: it needs the per-seed bound of C06"]
+                        "liveness: every seed is let go after at most 4*max-redirect+4 passes (theorem c01_seed_is_let_go over the composed stage "
+                        "models, domains-crawl off, node ids distinct); that workers eventually take the seed from their channels is Go's scheduler"]
 
 
 def replay(ctx, doc):
